@@ -26,7 +26,7 @@ pub fn stream_cfg(k: usize) -> (&'static str, DbCfg) {
         4 | 5 => ("wheretree", base),
         6 => ("sellist", base),
         7 => ("from", DbCfg { max_rows: 5, ..base }),
-        8 => ("mixed", DbCfg { text_cols: true, ..base }),
+        8 => if k % 20 == 8 { ("mixed", DbCfg { text_cols: true, ..base }) } else { ("odd", DbCfg { text_cols: true, null_pct: 35, max_rows: 4, ..base }) },
         _ => ("nullrich", DbCfg { null_pct: 55, max_rows: 5, ..base }),
     }
 }
@@ -81,8 +81,9 @@ pub struct QCfg {
     pub unqual_pct: u64,     // chance that a reference is written without its alias (when SQL scoping allows)
     pub arith_pct: u64,
     pub null_lit_pct: u64,
+    pub mismatch_pct: u64,   // chance that an operand is of another type than its context wants (outside the reference)
 }
-impl Default for QCfg { fn default() -> Self { QCfg { corr_pct: 30, unqual_pct: 12, arith_pct: 8, null_lit_pct: 4 } } }
+impl Default for QCfg { fn default() -> Self { QCfg { corr_pct: 30, unqual_pct: 12, arith_pct: 8, null_lit_pct: 4, mismatch_pct: 0 } } }
 
 /// a column reference of type `ty` visible in `sc` (innermost first); None if there is none
 fn gen_col(rng: &mut Rng, sc: &[GScope], ty: ColTy, qc: &QCfg, allow_outer: bool) -> Option<Sx> {
@@ -113,6 +114,7 @@ fn gen_lit(rng: &mut Rng, ty: ColTy, qc: &QCfg) -> Sx {
 
 /// a scalar operand of type `ty`
 fn gen_scalar(rng: &mut Rng, sc: &[GScope], ty: ColTy, qc: &QCfg, allow_outer: bool) -> Sx {
+    let ty = if rng.below(100) < qc.mismatch_pct { if ty == ColTy::Int { ColTy::Text } else { ColTy::Int } } else { ty };
     let k = rng.below(100);
     if k < 62 { if let Some(c) = gen_col(rng, sc, ty, qc, allow_outer) { return c; } }
     if ty == ColTy::Int && k >= 62 && k < 62 + qc.arith_pct {
@@ -290,10 +292,18 @@ fn gen_derived(rng: &mut Rng, d: &Db, qc: &QCfg, levels: usize, top_sub: bool) -
 
 /// one statement of the named stream over the database
 pub fn gen_case(rng: &mut Rng, d: &Db, stream: &str) -> Chain {
-    let qc = QCfg::default();
+    // `odd`: ill-typed operands (text against integers), many NULL literals, arithmetic: mostly
+    // outside the reference semantics (no demand) -- only "no panic" and the model are checked
+    let qc = if stream == "odd" { QCfg { mismatch_pct: 30, null_lit_pct: 20, arith_pct: 20, ..QCfg::default() } } else { QCfg::default() };
     let top = |rng: &mut Rng| -> (usize, Vec<GScope>) { let k = rng.below(d.tables.len() as u64) as usize; (k, vec![base_scope(d, k)]) };
     match stream {
         "setops" => gen_chain(rng, d, &qc, 0),
+        "odd" => if rng.chance(1, 3) { gen_chain(rng, d, &qc, 10) } else {
+            let (k, sc) = top(rng);
+            let items = { let n = 1 + rng.below(2) as usize; gen_items(rng, &sc[0], n, &qc, false) };
+            let w = gen_pred(rng, d, &sc, &qc, 1, 2, false);
+            Chain::single(Qry::Sel { items, src: Src::Base(k), w: Some(w) })
+        },
         "mixed" => match rng.below(3) {
             0 => gen_chain(rng, d, &qc, 35),
             1 => { let lv = 1 + rng.below(2) as usize; Chain::single(gen_derived(rng, d, &qc, lv, true)) }
@@ -511,8 +521,7 @@ fn own_outer(e: &Sx) -> bool {
         Sx::Lit(_) => false,
         Sx::Arith(_, a, b) | Sx::Cmp(_, a, b) | Sx::And(a, b) | Sx::Or(a, b) => own_outer(a) || own_outer(b),
         Sx::Not(a) | Sx::IsNull(_, a) => own_outer(a),
-        Sx::In(_, a, _) => own_outer(a),
-        Sx::Exists(..) | Sx::Scalar(_) => false,
+        Sx::In(..) | Sx::Exists(..) | Sx::Scalar(_) => false,
     }
 }
 fn scalars_of<'a>(e: &'a Sx, out: &mut Vec<&'a Qry>) {
@@ -630,6 +639,25 @@ fn derived_simple(q: &Qry) -> bool {
 fn leaf_has_sub(q: &Qry) -> bool {
     match q { Qry::Sel { items, w, .. } => items.iter().any(has_sub) || w.as_ref().map(has_sub).unwrap_or(false), Qry::Set(..) => true }
 }
+/// does the implementation model (coq/Model/SubqImpl.v impl_stmt) cover the statement?  (a
+/// syntactic mirror of the conditions under which impl_stmt answers MUnm; used for statistics)
+pub fn modelled(_d: &Db, c: &Chain) -> bool {
+    let plain = |items: &Vec<Sx>| items.iter().all(|it| matches!(it, Sx::Col { lvl: 0, .. }));
+    let leaf_ok = |q: &Qry| matches!(q, Qry::Sel { items, src: Src::Base(_), w: Some(_) } if plain(items));
+    if !c.rest.is_empty() { return leaf_ok(&c.first) && c.rest.iter().all(|(_, _, q)| leaf_ok(q)); }
+    match &c.first {
+        Qry::Sel { items, src: Src::Base(_), w: Some(p) } => {
+            if decor(p).is_some() { return true; }
+            let mut qs = vec![];
+            scalars_of(p, &mut qs);
+            let scalar_ok = |q: &Qry| matches!(q, Qry::Sel { items, .. } if items.len() == 1 && matches!(items[0], Sx::Col { lvl: 0, .. }));
+            qs.iter().all(|q| scalar_ok(q)) && items.iter().all(|it| matches!(it, Sx::Col { lvl: 0, .. } | Sx::Scalar(_) | Sx::In(..) | Sx::Exists(..)))
+        }
+        Qry::Sel { items, src: Src::Sub(q2), w: Some(p) } => !has_sub(p) && derived_simple(q2) && plain(items),
+        _ => false,
+    }
+}
+
 /// finding class of a case (0 = none); mirrors coq/Model/SubqClass.v
 pub fn rough_class(d: &Db, c: &Chain) -> i64 {
     if !c.rest.is_empty() {
